@@ -289,6 +289,17 @@ def run(ctx: Ctx):
     ctx.ob("R14.3", close, cw[0] if cw else "closing call", gcl in ([("'w' in self._file.mode", True)], [("'r' in self._file.mode", False)]),
            "closing a file opened for writing always writes the closing information (count back-fill and box line)",
            node=cw[0] if cw else close.node)
+    # no finaliser of a coordinate-file object completes a file the user never closed
+    parser_classes = [k for k in ctx.repo.classes.values() if k.name in ("GroFile", "CoordinatesParser")]
+    fin = []
+    for k in parser_classes:
+        d = k.methods.get("__del__")
+        if d is not None and any(call_name(c) in ("close", closing.name, "__exit__") for c in calls_in(d.node)):
+            fin.append(d)
+    ctx.ob("R14.3", fin[0] if fin else close, "finalisers of the writer that close it: %s" % [d.qual for d in fin], not fin,
+           "a writer abandoned before close() stays incomplete: no __del__ of the file object calls close() (which would "
+           "back-fill the count and append the box line, turning a partial file into an accepted one)",
+           node=fin[0].node if fin else close.node)
     # last write
     flat = stmts_sorted(closing.node)
     writes = [st for st in flat if isinstance(st, ast.Expr) and isinstance(st.value, ast.Call)
